@@ -1772,3 +1772,113 @@ func checkIndexNotCounterGated(p *Program, r *Report, rule string) {
 	}
 	r.Floor(rule, "leaf-index updates inside loops of the map forest", n, 4)
 }
+
+
+// ---------------------------------------------------------------------------
+// RECORD-APPLIES-DELETIONS (R15f): recording a block keeps, next to the block's
+// deletions, the root state they lead to. Every store that appends to the
+// tracker's root-info history is either on the first-block path (no history
+// yet) or dominated by a call that receives both the block's deletions and
+// root infos - a shortcut that carries the previous root infos over leaves an
+// emptied tree unmarked and later additions over it are never traced back.
+
+func checkRecordAppliesDeletions(p *Program, r *Report, rule string) {
+	fn := p.Func("(*CachingScheduleTracker).AddBlockSummary")
+	if fn == nil {
+		r.MissingAnchor(rule, "(*CachingScheduleTracker).AddBlockSummary", "block recording not found")
+		return
+	}
+	var dels ssa.Value
+	for _, par := range fn.Params {
+		if isPositionSlice(par.Type()) {
+			dels = par
+		}
+	}
+	if dels == nil {
+		r.Undecided(rule, "AddBlockSummary/deletions", p.Pos(fn.Pos()), "cannot identify the deletions parameter")
+		return
+	}
+	isRootInfoSlice := func(t types.Type) bool {
+		sl, ok := t.Underlying().(*types.Slice)
+		if !ok {
+			return false
+		}
+		nt := namedOf(sl.Elem())
+		if nt == nil || nt.Obj().Pkg() != p.Types {
+			return false
+		}
+		_, isStruct := nt.Underlying().(*types.Struct)
+		return isStruct
+	}
+	// the root-info history: the receiver field of type [][]struct
+	var applies []*ssa.Call
+	for _, sc := range callsIn(p, fn) {
+		callee := sc.call.Common().StaticCallee()
+		if callee == nil || !p.owns(callee) {
+			continue
+		}
+		fromDels, hasRoots := false, false
+		for _, a := range sc.call.Common().Args {
+			if flowsFrom(a, func(x ssa.Value) bool { return x == dels }, 0, map[ssa.Value]bool{}) {
+				fromDels = true
+			}
+			if isRootInfoSlice(a.Type()) {
+				hasRoots = true
+			}
+		}
+		if fromDels && hasRoots {
+			applies = append(applies, sc.call)
+		}
+	}
+	n := 0
+	for _, b := range fn.Blocks {
+		for _, in := range b.Instrs {
+			st, ok := in.(*ssa.Store)
+			if !ok {
+				continue
+			}
+			fa, ok := st.Addr.(*ssa.FieldAddr)
+			if !ok || !isReceiverValue(fn, fa.X) {
+				continue
+			}
+			ft, ok := deref(fa.Type()).Underlying().(*types.Slice)
+			if !ok || !isRootInfoSlice(ft.Elem()) {
+				continue
+			}
+			n++
+			key := fmt.Sprintf("AddBlockSummary/root-history-store#%d", n)
+			// first-block path: guarded by len(history) == 0
+			first := false
+			for _, g := range guardsAt(b) {
+				rel, ok := relOf(g)
+				if !ok || rel.Op != token.EQL {
+					continue
+				}
+				for _, pr := range [][2]ssa.Value{{rel.X, rel.Y}, {rel.Y, rel.X}} {
+					if lv, isLen := lenArg(pr[0]); isLen {
+						if c, ok := pr[1].(*ssa.Const); ok && c.Value != nil && c.Int64() == 0 {
+							if _, f, ok := fieldRead(lv); ok && f == fieldName(fa.X.Type(), fa.Field) {
+								first = true
+							}
+						}
+					}
+				}
+			}
+			dom := false
+			for _, c := range applies {
+				if dominatesInstr(c, st) {
+					dom = true
+				}
+			}
+			switch {
+			case first:
+				r.Discharge(rule, key, posOf(p, st), "first recorded block: there is no earlier root state to apply deletions to", false)
+			case dom:
+				r.Discharge(rule, key, posOf(p, st), "dominated by the call that applies the block's deletions to the root infos", true)
+			default:
+				r.Violate(rule, key, posOf(p, st), "a root-info state is recorded for a block on a path that never applies the block's deletions to it: a tree emptied by that block stays unmarked and additions over it are not traced back", "in AddBlockSummary")
+			}
+		}
+	}
+	r.Floor(rule, "stores to the tracker's root-info history", n, 2)
+}
